@@ -1,26 +1,354 @@
 package main
 
 import (
+	"encoding/json"
+	"flag"
 	"fmt"
 	"os"
-
-	"golang.org/x/tools/go/packages"
-	"golang.org/x/tools/go/ssa"
-	"golang.org/x/tools/go/ssa/ssautil"
+	"path/filepath"
+	"sort"
+	"strings"
+	"time"
 )
 
-func main() {
-	cfg := &packages.Config{Mode: packages.LoadAllSyntax, Dir: "/repo"}
-	pkgs, err := packages.Load(cfg, os.Args[1:]...)
-	if err != nil {
-		panic(err)
-	}
-	prog, spkgs := ssautil.AllPackages(pkgs, ssa.NaiveForm|ssa.GlobalDebug)
-	prog.Build()
-	for _, p := range spkgs {
-		if f := p.Func("parseInt"); f != nil {
-			f.WriteTo(os.Stdout)
+type KnownFinding struct {
+	Property   string `json:"property"`
+	Obligation string `json:"obligation"`
+	What       string `json:"what"`
+	Status     string `json:"status"`
+	Commit     string `json:"commit,omitempty"`
+	Tag        string `json:"tag,omitempty"`
+}
+
+func contains(xs []string, s string) bool {
+	for _, x := range xs {
+		if x == s {
+			return true
 		}
 	}
-	fmt.Println("ok")
+	return false
+}
+
+func main() {
+	if len(os.Args) < 2 {
+		fmt.Fprintln(os.Stderr, "usage: govc check --prop Cxx [--tier quick|thorough]")
+		os.Exit(2)
+	}
+	switch os.Args[1] {
+	case "check":
+		os.Exit(cmdCheck(os.Args[2:]))
+	case "parse":
+		for _, f := range os.Args[2:] {
+			if _, err := parseContractFile(f); err != nil {
+				fmt.Println(err)
+				os.Exit(2)
+			}
+		}
+		fmt.Println("ok")
+	default:
+		fmt.Fprintln(os.Stderr, "unknown command")
+		os.Exit(2)
+	}
+}
+
+func cmdCheck(args []string) int {
+	fs := flag.NewFlagSet("check", flag.ExitOnError)
+	prop := fs.String("prop", "", "property id")
+	tier := fs.String("tier", "quick", "quick|thorough")
+	repo := fs.String("repo", "/repo", "repository root")
+	verif := fs.String("verif", "/verif", "verif root")
+	only := fs.String("func", "", "only this function key (development)")
+	onlyOb := fs.String("ob", "", "only obligations containing this substring (development)")
+	verbose := fs.Bool("v", false, "verbose")
+	keep := fs.Bool("keep", false, "keep SMT files")
+	timeout := fs.Int("timeout", 0, "solver timeout seconds")
+	noEvidence := fs.Bool("no-evidence", false, "do not write evidence")
+	fs.Parse(args)
+	if t := os.Getenv("VERIF_TIER"); t != "" && *tier == "" {
+		*tier = t
+	}
+	start := time.Now()
+	to := 20
+	if *tier == "thorough" {
+		to = 120
+	}
+	if *timeout > 0 {
+		to = *timeout
+	}
+	P, err := loadProg(*repo, filepath.Join(*verif, "prelude"))
+	if err != nil {
+		fmt.Fprintf(os.Stderr, "govc: cannot load program: %v\n", err)
+		// a tree that does not build cannot be verified: engine error
+		return 2
+	}
+	if err := P.pureAxioms(); err != nil {
+		fmt.Fprintf(os.Stderr, "govc: %v\n", err)
+		return 2
+	}
+	work, _ := os.MkdirTemp("", "govc-"+*prop+"-")
+	if !*keep {
+		defer os.RemoveAll(work)
+	} else {
+		fmt.Println("work dir:", work)
+	}
+
+	var vcs []*VC
+	var bindingFailures []string
+	var funcs []string
+	var outside []string
+	notes := map[string]bool{}
+	trusted := []string{}
+	for _, k := range sortedKeys(P.contracts) {
+		fc := P.contracts[k]
+		if *prop != "" && !contains(fc.Props, *prop) {
+			continue
+		}
+		if *only != "" && fc.Key != *only {
+			continue
+		}
+		fn := P.fnByKey[k]
+		short := fc.Key
+		if fn == nil {
+			bindingFailures = append(bindingFailures, fmt.Sprintf("binding failure: function %s under contract no longer exists (%s)", fc.Key, k))
+			continue
+		}
+		if fc.Trusted != "" {
+			trusted = append(trusted, fmt.Sprintf("%s.%s: contract assumed, body not verified (%s)", fn.Pkg.Pkg.Name(), short, fc.Trusted))
+			continue
+		}
+		fx := newFnCtx(P, fn, fc)
+		fx.generate()
+		if len(fx.errs) > 0 {
+			isOutside := false
+			seen := map[string]bool{}
+			var msgs []string
+			for _, e := range fx.errs {
+				if strings.HasPrefix(e, "outside subset") {
+					isOutside = true
+				}
+				if !seen[e] {
+					seen[e] = true
+					msgs = append(msgs, e)
+				}
+			}
+			bindingFailures = append(bindingFailures, fx.key+": "+strings.Join(msgs, "; "))
+			if isOutside {
+				outside = append(outside, fx.key)
+			}
+			continue
+		}
+		fvcs, err := fx.buildVCs()
+		if err != nil {
+			bindingFailures = append(bindingFailures, fx.key+": "+err.Error())
+			continue
+		}
+		funcs = append(funcs, fmt.Sprintf("%s (%s mode)", fx.key, fx.mode))
+		for n := range fx.notes {
+			notes[fx.key+": "+n] = true
+		}
+		for _, vc := range fvcs {
+			if *prop != "" && len(vc.Props) > 0 && !contains(vc.Props, *prop) {
+				continue
+			}
+			vcs = append(vcs, vc)
+		}
+	}
+	var lemmaNames []string
+	for _, lm := range P.lemmaList {
+		if *prop != "" && !contains(lm.Props, *prop) {
+			continue
+		}
+		if *only != "" && "lemma:"+lm.Name != *only {
+			continue
+		}
+		if lm.Axiom {
+			continue
+		}
+		lv, err := P.lemmaVCs(lm)
+		if err != nil {
+			bindingFailures = append(bindingFailures, err.Error())
+			continue
+		}
+		lemmaNames = append(lemmaNames, lm.Name)
+		vcs = append(vcs, lv...)
+	}
+	if *onlyOb != "" {
+		var f []*VC
+		for _, vc := range vcs {
+			if strings.Contains(vc.Name, *onlyOb) {
+				f = append(f, vc)
+			}
+		}
+		vcs = f
+	}
+	dischargeAll(vcs, work, to, 14)
+
+	// known findings
+	var known []KnownFinding
+	if b, err := os.ReadFile(filepath.Join(*verif, "known_findings.json")); err == nil {
+		_ = json.Unmarshal(b, &known)
+	}
+	isKnown := func(vc *VC) *KnownFinding {
+		for i := range known {
+			k := &known[i]
+			if k.Status == "open" && k.Property == *prop && (k.Obligation == vc.Name || (k.Tag != "" && k.Tag == vc.Known)) {
+				return k
+			}
+		}
+		return nil
+	}
+	violations := 0
+	discharged := 0
+	engineErr := false
+	perBackend := map[string]int{}
+	var solverMs int64
+	type sample struct {
+		Obligation string `json:"obligation"`
+		Clause     string `json:"clause"`
+		Backend    string `json:"backend"`
+		Ms         int64  `json:"ms"`
+		Result     string `json:"result"`
+	}
+	var samples []sample
+	var slow []sample
+	var knownHit []string
+	replayDir := filepath.Join(*verif, "replays", *prop)
+	sort.SliceStable(vcs, func(i, j int) bool { return vcs[i].Name < vcs[j].Name })
+	for _, vc := range vcs {
+		solverMs += vc.Ms
+		if *verbose {
+			fmt.Printf("%-8s %-7s %6dms  %s  -- %s\n", vc.Result, vc.Backend, vc.Ms, vc.Name, vc.Clause)
+		}
+		switch vc.Result {
+		case "unsat":
+			discharged++
+			perBackend[vc.Backend]++
+			if len(samples) < 12 && !vc.Cover {
+				samples = append(samples, sample{vc.Name, vc.Clause, vc.Backend, vc.Ms, vc.Result})
+			}
+			if vc.Ms > 3000 {
+				slow = append(slow, sample{vc.Name, vc.Clause, vc.Backend, vc.Ms, vc.Result})
+			}
+		case "vacuous":
+			fmt.Printf("ENGINE-ERROR: assumptions of %s are contradictory (vacuity guard)\n", vc.Func)
+			engineErr = true
+		case "disagree":
+			fmt.Printf("ENGINE-ERROR: solvers disagree on %s\n", vc.Name)
+			engineErr = true
+		default:
+			if kf := isKnown(vc); kf != nil {
+				fmt.Printf("KNOWN-FINDING: property=%s %s [%s]\n", *prop, kf.What, vc.Name)
+				knownHit = append(knownHit, vc.Name)
+				discharged++ // accounted for, not proved; reported separately in evidence
+				continue
+			}
+			violations++
+			os.MkdirAll(replayDir, 0o755)
+			rp := filepath.Join(replayDir, sanitize(vc.Name)+".json")
+			suffix := " no-failing-input-found"
+			rep := map[string]interface{}{"property": *prop, "obligation": vc.Name, "clause": vc.Clause, "function": vc.Func,
+				"solver_result": vc.Result, "backend": vc.Backend, "all_results": vc.AllRes, "solver_output": truncate(vc.Output, 20000)}
+			if vc.Result == "sat" {
+				if ok, info := tryReplay(P, vc, *repo, work); ok {
+					suffix = ""
+					rep["replay"] = info
+				} else {
+					rep["replay"] = info
+				}
+			}
+			b, _ := json.MarshalIndent(rep, "", " ")
+			os.WriteFile(rp, b, 0o644)
+			fmt.Printf("VIOLATION property=%s replay=%s%s\n", *prop, rp, suffix)
+			fmt.Printf("  failed obligation: %s [%s] -- %s\n", vc.Name, vc.Result, vc.Clause)
+		}
+	}
+	for _, bf := range bindingFailures {
+		violations++
+		os.MkdirAll(replayDir, 0o755)
+		rp := filepath.Join(replayDir, fmt.Sprintf("binding_%d.json", violations))
+		b, _ := json.MarshalIndent(map[string]interface{}{"property": *prop, "obligation": "binding", "reason": bf}, "", " ")
+		os.WriteFile(rp, b, 0o644)
+		fmt.Printf("VIOLATION property=%s replay=%s no-failing-input-found\n", *prop, rp)
+		fmt.Printf("  %s\n", bf)
+	}
+	total := len(vcs)
+	if total == 0 && len(bindingFailures) == 0 {
+		fmt.Printf("ENGINE-ERROR: no obligations generated for %s\n", *prop)
+		engineErr = true
+	}
+	// evidence
+	if !*noEvidence && *prop != "" && *only == "" && *onlyOb == "" {
+		var assumptions []string
+		assumptions = append(assumptions, P.assumptionList(*prop)...)
+		assumptions = append(assumptions, trusted...)
+		for _, n := range sortedKeysB(notes) {
+			assumptions = append(assumptions, n)
+		}
+		ev := map[string]interface{}{
+			"property_id": *prop, "tier": *tier, "seed": 0, "level": "proof", "wall_s": time.Since(start).Seconds(), "violations": violations,
+			"coverage": map[string]interface{}{
+				"obligations": total, "discharged": discharged,
+				"checker_cmd":  fmt.Sprintf("bin/govc check --prop %s --tier %s", *prop, *tier),
+				"trusted_base": []string{"go/packages+go/types+go/ssa (x/tools v0.29.0, naive form)", "govc VC generator (/verif/engine)", "z3 4.8.12", "z3 5.1.0", "cvc5 1.0", "prelude theories and library contracts (/verif/prelude)"},
+				"functions_under_contract": funcs, "functions_outside_subset": outside, "lemmas": lemmaNames,
+				"per_backend": perBackend, "solver_time_s": float64(solverMs) / 1000, "slowest": slow,
+				"samples": samples, "known_findings_hit": knownHit,
+				"integer_semantics": "int mode: Go integers as mathematical Int with a safe.ovf obligation at every + - * on fixed-width types (machine arithmetic checked, not assumed)",
+			},
+			"assumptions": assumptions,
+		}
+		os.MkdirAll(filepath.Join(*verif, "evidence"), 0o755)
+		b, _ := json.MarshalIndent(ev, "", " ")
+		os.WriteFile(filepath.Join(*verif, "evidence", *prop+".json"), b, 0o644)
+	}
+	fmt.Printf("govc: property=%s obligations=%d discharged=%d violations=%d functions=%d lemmas=%d wall=%.1fs\n", *prop, total, discharged, violations, len(funcs), len(lemmaNames), time.Since(start).Seconds())
+	if engineErr {
+		return 2
+	}
+	if violations > 0 {
+		return 1
+	}
+	return 0
+}
+
+func sortedKeysB(m map[string]bool) []string {
+	var ks []string
+	for k := range m {
+		ks = append(ks, k)
+	}
+	sort.Strings(ks)
+	return ks
+}
+
+func truncate(s string, n int) string {
+	if len(s) > n {
+		return s[:n] + "...[truncated]"
+	}
+	return s
+}
+
+// assumptionList: mechanical scan of axioms, externs, ifaces relevant to a property.
+func (P *Prog) assumptionList(prop string) []string {
+	var out []string
+	for _, lm := range P.lemmaList {
+		if lm.Axiom {
+			out = append(out, fmt.Sprintf("axiom %s (%s)", lm.Name, lm.Reason))
+		}
+	}
+	for _, k := range sortedKeys(P.externs) {
+		out = append(out, "extern contract assumed: "+k)
+	}
+	for _, k := range sortedKeys(P.ifaces) {
+		out = append(out, "interface contract assumed for caller-supplied implementations: "+k)
+	}
+	for _, sf := range P.specs {
+		_ = sf
+	}
+	out = append(out, "string/slice lengths and allocation sizes are at most 2^62 (allocator never exhausts memory)",
+		"Str theory axioms, UTF-8 iteration axioms (prelude in engine/smt.go, engine/discharge.go)")
+	return out
+}
+
+func tryReplay(P *Prog, vc *VC, repo, work string) (bool, string) {
+	return false, "replay harness: model values are in solver_output; no executable harness for this signature"
 }
